@@ -83,6 +83,8 @@ def gen(ctx, part):
 
 def run(ctx):
     ctx.build()
+    import c03
+    mcst = c03.mc(ctx, 3 if ctx.tier == "quick" else 4)
     quick = ctx.tier == "quick"
     rng = random.Random(ctx.seed)
     place = gen(ctx, "place")
@@ -109,5 +111,5 @@ def run(ctx):
            "evaluations": len(R.cases), "distinct_nontrivial": clean,
            "rule": "TLC enumerates (Gen_Bits.tla) every subset of <= 4 preamble items (comment, ORG, EQU, INSTRSET, label, DB, FORMAT WCOFF, GLOBAL, OPTIMIZE) x every position of the BITS directive among them x mode in {none,16,32}"
                    "%s, and programs with 1..3 further mode switches between instruction groups (labels after each group); instructions are mode-observable" % (" (quick: seeded sample of 500)" if quick else ""),
-           "samples": [R.cases[i]["src"] for i in (0, len(place), len(R.cases) - 1)], "tlc_runs": ctx.tlc_stats[:4], "exhaustive": not quick}
+           "samples": [R.cases[i]["src"] for i in (0, len(place), len(R.cases) - 1)], "model_checking": "MC_Asm: Inv_C17 (every instruction chunk denotes its statement under the mode in force at that statement) holds in all %d states of all programs of length <= %d over a 15-statement alphabet" % (mcst["distinct"], 3 if ctx.tier == "quick" else 4), "tlc_runs": ctx.tlc_stats[:4], "exhaustive": not quick}
     return report.finish(ctx, "C17", viol, known, other, R, cov, ASSUME)
